@@ -14,7 +14,7 @@ from auditsim.log import Outcome, same
 
 PROP = "C05"
 TIERS = {
-    "quick": {"runs": 60000, "chunk": 1000, "nmax": 40},
+    "quick": {"runs": 150000, "chunk": 1000, "nmax": 40},
     "thorough": {"budget_s": 600, "chunk": 1000, "nmax": 300},
 }
 RULE = ("one run = one configuration (every shipped test x estimator/bet, finite and infinite N) and one history "
@@ -33,7 +33,7 @@ COMPONENTS = {
 }
 PROBES = ["final-sample clamp fired (total > N t)", "null mean hit 0 before cut", "null mean > u before cut",
           "null mean negative before cut", "cut at 1", "cut at n-1", "truncation lowered the k-th entry",
-          "call raised"]
+          "call raised", "whole-number sample handed over as ints", "rounds evaluated on views of one buffer"]
 
 
 def generate(rng, tier):
@@ -44,7 +44,8 @@ def generate(rng, tier):
     n = rng.randint(2, rng.pick([6, 12, cfg_t["nmax"]]))
     q = 64
     umax = int(math.floor(u * q + 1e-12))
-    style = rng.pick(["any", "low", "high", "binary", "const-then-jump", "at-null"])
+    style = rng.pick(["any", "low", "high", "binary", "const-then-jump", "at-null", "binary"])
+    as_given = bool(style == "binary" and u >= 1 and rng.chance(0.6))
 
     def draw(i):
         if style == "any":
@@ -59,7 +60,11 @@ def generate(rng, tier):
             return rng.pick([int(t * q), int(t * q), rng.randint(0, umax)])
         return int(t * q) if i < n // 2 else rng.randint(0, umax)
 
-    x = [draw(i) / q for i in range(n)]
+    if as_given:
+        # whole-number data handed over as Python ints (a polling sample of 0/1 assorter values)
+        x = [float(rng.pick([0, 1])) for _ in range(n)]
+    else:
+        x = [draw(i) / q for i in range(n)]
     k = rng.pick([1, n - 1, rng.randint(1, n - 1)])
     ny = rng.randint(1, max(1, rng.pick([2, n, 2 * n])))
     y = [rng.randint(0, umax) / q for _ in range(ny)]
@@ -71,11 +76,28 @@ def generate(rng, tier):
         N = rng.pick([longest, longest, longest + 1, longest + rng.randint(1, 50), 10 * longest])
     else:
         N = D.INF
-    return {"cfg": cfg, "x": x, "k": k, "y": y, "N": N}
+    if as_given and rng.chance(0.5):
+        y = [float(rng.pick([0, 1])) for _ in y]
+        y[rng.randrange(len(y))] = rng.pick([0.5, 0.25, 1.0])
+    return {"cfg": cfg, "x": x, "k": k, "y": y, "N": N, "as_given": as_given, "shared_buffer": rng.chance(0.3)}
 
 
-def _call(out, tst, x):
+def _arr(case, seq):
+    """the sample as the caller would hand it over: Python numbers (whole values as ints) or a float array"""
+    if case.get("as_given"):
+        return np.array([int(v) if float(v).is_integer() else float(v) for v in seq])
+    return np.array(seq, dtype=float)
+
+
+def _call(out, tst, x, case=None):
+    import warnings
     try:
+        if case is not None and case.get("as_given"):
+            with warnings.catch_warnings():
+                warnings.simplefilter("ignore")
+                with np.errstate(all="ignore"):
+                    p, h = tst.test(_arr(case, x))
+            return float(p), np.asarray(h, dtype=float)
         return D.call_test(tst, x)
     except Exception as e:
         out.raised("test", e)
@@ -83,13 +105,13 @@ def _call(out, tst, x):
         return None
 
 
-def _aux(out, fn, x):
+def _aux(out, fn, x, case=None):
     import warnings
     try:
         with warnings.catch_warnings():
             warnings.simplefilter("ignore")
             with np.errstate(all="ignore"):
-                v = fn(np.array(x, dtype=float))
+                v = fn(_arr(case or {}, x))
         v = np.asarray(v, dtype=float)
         if v.ndim == 0:
             v = np.full(len(x), float(v))
@@ -131,9 +153,34 @@ def execute(case):
             S += x[j]
         if sum(x) > N * cfg["t"] or sum(trunc) > N * cfg["t"]:
             out.probe("final-sample clamp fired (total > N t)")
-    a = _call(out, tst, x)
-    b = _call(out, tst, fork)
-    c = _call(out, tst, trunc)
+    if case.get("as_given"):
+        out.probe("whole-number sample handed over as ints")
+    a = _call(out, tst, x, case)
+    b = _call(out, tst, fork, case)
+    c = _call(out, tst, trunc, case)
+    # the same draws looked at again in the caller's own buffer (an audit in rounds evaluates views draws[:n])
+    if case.get("shared_buffer") and a is not None and c is not None and not case.get("as_given"):
+        import warnings
+        out.probe("rounds evaluated on views of one buffer")
+        buf = np.array(x, dtype=float)
+        keep = buf.copy()
+        try:
+            with warnings.catch_warnings():
+                warnings.simplefilter("ignore")
+                with np.errstate(all="ignore"):
+                    p1, h1 = tst.test(buf[:k])
+                    p2, h2 = tst.test(buf)
+            h1 = np.asarray(h1, dtype=float)
+            h2 = np.asarray(h2, dtype=float)
+            if len(h1) == len(c[1]) and any(not same(u_, v_) for u_, v_ in zip(h1, c[1])):
+                out.violate("C05.b", path + "/shared-buffer", f"the first {k} draws evaluated in the caller's buffer give {h1[:4]}, "
+                                                             f"on a fresh copy {c[1][:4]} (N={N})")
+            elif len(h2) == len(a[1]) and any(not same(u_, v_) for u_, v_ in zip(h2, a[1])):
+                out.violate("C05.b", path + "/shared-buffer",
+                            f"after the first {k} draws were evaluated, the history of all {n} draws in the same buffer is "
+                            f"{h2[:4]}..., on a fresh copy {a[1][:4]}... (N={N}); buffer changed: {not np.array_equal(buf, keep)}")
+        except Exception as e:
+            out.raised("test(view)", e)
     if a is not None:
         out.ev("hist", [float(v).hex() if not math.isnan(v) else "nan" for v in a[1]])
         if any(v < 1 for v in a[1][:k] if not math.isnan(v)) and y[0] != x[k]:
@@ -170,8 +217,8 @@ def execute(case):
                             ("bet", tst.bet, cfg["test"] == "BETTING_MART")):
         if not used:
             continue
-        ea = _aux(out, fn, x)
-        eb = _aux(out, fn, fork)
+        ea = _aux(out, fn, x, case)
+        eb = _aux(out, fn, fork, case)
         if ea is None or eb is None:
             continue
         out.ev(label, [float(v).hex() if not math.isnan(v) else "nan" for v in ea[: k + 1]])
@@ -215,6 +262,11 @@ def reducers(case):
         if case["N"] > longest:
             c = copy.deepcopy(case)
             c["N"] = longest
+            yield c
+    for flag in ("shared_buffer", "as_given"):
+        if case.get(flag):
+            c = copy.deepcopy(case)
+            c[flag] = False
             yield c
     kw = case["cfg"]["kwargs"]
     for key in list(kw):
